@@ -516,7 +516,26 @@ def r3_8(repo: Repo) -> RuleResult:
         if not (isinstance(lp.iter, ast.Call) and norm(lp.iter.func) == "enumerate" and lp.iter.args and is_self_attr(lp.iter.args[0])):
             continue
         if any("_window_reversals" in norm(x) for x in ast.walk(lp)):
-            continue  # the reference expansion itself (R3.2)
+            # the reference expansion itself (R3.2): every *other* list it fills must get as many entries as the flags
+            first = lp.body[0] if lp.body and isinstance(lp.body[0], ast.If) else None
+            if first is None:
+                continue
+            others = {norm(c.func.value) for c in ast.walk(lp) if isinstance(c, ast.Call) and isinstance(c.func, ast.Attribute)
+                      and c.func.attr in ("append", "extend") and is_self_attr(c.func.value) and c.func.value.attr != "_window_reversals"}
+            for lst in sorted(others):
+                for key in ("directional", "before", "after"):
+                    n_got = 0
+                    for st in _dispatch_arm(first, key, "orientation expansion"):
+                        c = st.value if isinstance(st, ast.Expr) else None
+                        if isinstance(c, ast.Call) and isinstance(c.func, ast.Attribute) and norm(c.func.value) == lst:
+                            n_got += len(c.args[0].elts) if c.func.attr == "extend" and isinstance(c.args[0], (ast.List, ast.Tuple)) else 1
+                    construct = "%s for %r" % (lst, key)
+                    if n_got == len(flags[key]):
+                        rr.ok(f, construct, "%d entr%s, as many as reversal flags" % (n_got, "y" if n_got == 1 else "ies"), lp.lineno)
+                    else:
+                        rr.bad(f, construct, "an orientation %r contributes %d entr%s to %s but %d reversal flag(s): later windows are paired with "
+                               "the wrong mix weight / name" % (key, n_got, "y" if n_got == 1 else "ies", lst, len(flags[key])), lp.lineno)
+            continue
         lists = {norm(c.func.value) for st in lp.body for c in ast.walk(st)
                  if isinstance(c, ast.Call) and isinstance(c.func, ast.Attribute) and c.func.attr == "append" and is_self_attr(c.func.value)
                  and c.func.value.attr.startswith("_")}
@@ -537,11 +556,51 @@ def r3_8(repo: Repo) -> RuleResult:
     return rr
 
 
-RULES = [r3_1, r3_2, r3_3, r3_4, r3_5, r3_6, r3_7, r3_8]
+MULTI = "vectorizers/multi_token_cooccurence_vectorizer.py"
+
+
+def r3_9(repo: Repo) -> RuleResult:
+    """The multiset kernels cut their windows themselves instead of calling window_at_index.  The same table must hold:
+    reversal flag set = the window *before* the position - a slice of the document list that ends at (and includes)
+    the current multiset, nearest first (reversed); flag clear = the slice that starts at the current multiset."""
+    rr = RuleResult("R3.9", "multiset kernels: a set reversal flag selects the slice ending at the position (reversed), a clear one the slice starting at it", floor=2)
+    for f in [g for g in repo.module(MULTI).all_funcs if g.is_njit]:
+        ifs = [n for n in walk_no_nested(f.node) if isinstance(n, ast.If) and "window_reversals[" in norm(n.test)]
+        for n in ifs:
+            t = n.test
+            neg = False
+            while isinstance(t, ast.UnaryOp) and isinstance(t.op, ast.Not):
+                t, neg = t.operand, not neg
+            if not (isinstance(t, ast.Subscript) and norm(t.value) == "window_reversals"):
+                raise AnalysisError("R3.9: reversal test `%s` not recognised in %s" % (norm(n.test), f.key))
+            arm_set, arm_clear = (n.orelse, n.body) if neg else (n.body, n.orelse)
+
+            def shape(stmts):
+                sl = [x for s_ in stmts for x in ast.walk(s_) if isinstance(x, ast.Subscript) and isinstance(x.slice, ast.Slice)]
+                rev = any(isinstance(x, ast.Call) and isinstance(x.func, ast.Attribute) and x.func.attr == "reverse" for s_ in stmts for x in ast.walk(s_)) \
+                    or any(isinstance(x.slice.step, ast.UnaryOp) for x in sl if x.slice.step is not None)
+                return sl, rev
+
+            (sl_s, rev_s), (sl_c, rev_c) = shape(arm_set), shape(arm_clear)
+            if len(sl_s) != 1 or len(sl_c) != 1:
+                raise AnalysisError("R3.9: window slices of %s not recognised" % f.key)
+            # the position variable: the lower bound of the forward slice
+            pos_forward = norm(sl_c[0].slice.lower) if sl_c[0].slice.lower is not None else None
+            ends_at = sl_s[0].slice.upper is not None and pos_forward is not None and norm(sl_s[0].slice.upper) == "%s + 1" % pos_forward
+            construct = "window selection on window_reversals[...]"
+            if ends_at and rev_s and not rev_c:
+                rr.ok(f, construct, "flag set: [.. : %s + 1] reversed; flag clear: [%s : ..]" % (pos_forward, pos_forward), n.lineno)
+            else:
+                rr.bad(f, construct, "with the reversal flag set the kernel takes `%s`%s and with it clear `%s`%s: 'before' and 'after' windows are "
+                       "exchanged relative to the flags and column blocks the estimator sets up" % (norm(sl_s[0]), " reversed" if rev_s else "", norm(sl_c[0]), " reversed" if rev_c else ""), n.lineno)
+    return rr
+
+
+RULES = [r3_1, r3_2, r3_3, r3_4, r3_5, r3_6, r3_7, r3_8, r3_9]
 CLAIM = (
     "R3.1 precision flow: no absolute timestamp is narrowed to float32 before the time difference is formed; R3.2 the three tables "
     "(orientation -> reversal flags, orientation -> column prefixes, reversal flag -> before/after in window_at_index) agree; R3.3 "
     "positional kernel / window argument packing matches the parameter order of every function in each class's registry; R3.4 "
-    "window slices have non-negative lower bounds (clamp or range proof); R3.5 window_at_index takes exactly window_size neighbours adjacent to the index on the chosen side, nearest first; R3.6 the stored weight and the window total it is divided by both derive from the mix-weighted kernels (backward slices), with a zero-total guard; R3.7 kernel parameters fitted from the data (the mean time gap) are accumulated in an attribute that the same function re-initialises on every path; R3.8 every per-window configuration list (kernel and window functions, their arguments, radii) expands each orientation to as many entries as it has reversal flags (the dispatch is evaluated per orientation)."
+    "window slices have non-negative lower bounds (clamp or range proof); R3.5 window_at_index takes exactly window_size neighbours adjacent to the index on the chosen side, nearest first; R3.6 the stored weight and the window total it is divided by both derive from the mix-weighted kernels (backward slices), with a zero-total guard; R3.7 kernel parameters fitted from the data (the mean time gap) are accumulated in an attribute that the same function re-initialises on every path; R3.8 every per-window configuration list (kernel and window functions, their arguments, radii) expands each orientation to as many entries as it has reversal flags (the dispatch is evaluated per orientation); R3.9 in the multiset kernels, which cut their windows themselves, a set reversal flag selects the slice ending at the position (reversed) and a clear flag the slice starting at it."
 )
 NOT_DECIDED = "the numerical definition itself: kernel formulas, per-occurrence sums, window normalisation totals, the transpose identity."
